@@ -92,3 +92,15 @@ def unordered_same_type(k, a, b, c, d):
         except TypeError:
             pass
     return True
+
+
+# uri strings that classic "helpful" normalisations would identify although they are different strings
+URIS = [
+    "", "file:///a", "file:///A", "file:///a/", "file:///a%20b", "file:///a b", "file:///a%2520b", "file:///c%3A/x", "file:///c%3a/x", "file:///c:/x",
+    "FILE:///a", "file://localhost/a", "file:///a#", "file:///a?", "file:///\u00e9", "file:///e\u0301", "file:///%C3%A9", " file:///a", "file:///a/./b", "file:///a/b",
+]
+
+
+def loc_eq_corpus(i, j, a, b, c, d):
+    x, y = Loc(URIS[i], a, b, c, d), Loc(URIS[j], a, b, c, d)
+    return (x == y) == (i == j) and (x != y) == (i != j)
